@@ -85,6 +85,12 @@ func (env *Env) call(x *ast.CallExpr) Val {
 	key := env.c.eng.keyOfFunc(fn)
 	spec := env.c.eng.Contracts.Funcs[key]
 	if spec == nil {
+		if v, ok := env.inlineCall(x, fn, key, recvExpr); ok {
+			return v
+		}
+		if v, ok := env.abstractExternalCall(x, fn, key, recvExpr); ok {
+			return v
+		}
 		env.fail(x.Pos(), "call to %s which has no contract", key)
 	}
 	return env.callSpec(x, fn, spec, recvExpr)
@@ -1082,4 +1088,250 @@ func qidOf(x *ast.CallExpr, env *Env) string {
 		}
 	}
 	return "q_" + b.String()
+}
+
+// abstractExternalCall models a call to a function outside the module that has no contract: its results are
+// arbitrary values of their types, the pointees of pointer arguments written as &x become arbitrary, nothing else
+// changes (in particular no ghost state: a system call must have a contract). This over-approximates every library
+// function that neither calls back into the module nor touches module state other than through its arguments, and
+// that does not panic; each abstracted callee is listed as an assumption. A proof that goes through holds for
+// every behaviour of the callee; a proof that fails is reported like any other failed obligation.
+func (env *Env) abstractExternalCall(x *ast.CallExpr, fn *types.Func, key string, recvExpr ast.Expr) (Val, bool) {
+	c := env.c
+	if fn.Pkg() == nil {
+		return Val{}, false
+	}
+	if _, inModule := c.eng.Funcs[key]; inModule {
+		return Val{}, false
+	}
+	for _, p := range c.eng.PkgByName {
+		if p.Types == fn.Pkg() {
+			return Val{}, false
+		}
+	}
+	// never abstract what carries the properties' ghost state
+	switch fn.Pkg().Path() {
+	case "syscall", "os", "os/exec", "runtime", "bufio", "io", "unsafe":
+		return Val{}, false
+	}
+	sig, ok := fn.Type().(*types.Signature)
+	if !ok {
+		return Val{}, false
+	}
+	args := append([]ast.Expr(nil), x.Args...)
+	if recvExpr != nil {
+		args = append([]ast.Expr{recvExpr}, args...)
+	}
+	for _, a := range args {
+		if u, ok := unparen(a).(*ast.UnaryExpr); ok && u.Op == token.AND {
+			// &lvalue: the callee may store anything of the right type there
+			loc := env.lvalue(u.X)
+			t := env.typeOf(u.X)
+			if t == nil {
+				return Val{}, false
+			}
+			nv := c.fresh("ext_"+fn.Name(), c.eng.Sorts.SortOf(t))
+			env.st.Assume(c.typeFacts(nv, t))
+			env.writeLoc(loc, nv, a.Pos(), false)
+			continue
+		}
+		v := env.eval(a)
+		if v.Loc != nil {
+			return Val{}, false // a pointer into module memory handed to an unknown callee
+		}
+		if t := env.typeOf(a); t != nil {
+			switch t.Underlying().(type) {
+			case *types.Pointer, *types.Map, *types.Chan, *types.Signature:
+				return Val{}, false
+			}
+		}
+	}
+	c.noteOnce("external call abstracted (results and &arguments arbitrary, no other effect, no panic): " + key)
+	var res []Val
+	for i := 0; i < sig.Results().Len(); i++ {
+		rt := sig.Results().At(i).Type()
+		r := c.fresh("r_"+fn.Name(), c.eng.Sorts.SortOf(rt))
+		env.st.Assume(c.typeFacts(r, rt))
+		res = append(res, Val{T: r, GoT: rt})
+	}
+	switch len(res) {
+	case 0:
+		return Val{}, true
+	case 1:
+		return res[0], true
+	}
+	return Val{Tuple: res}, true
+}
+
+// inlineCall handles a call to a function of the same package that has no contract (typically a helper extracted
+// by a refactoring): if the body is loop-free, has no defer/go/closure and turns out to have no effect on anything
+// the caller can see, the call is replaced by a summary computed from the body itself: the callee is executed
+// symbolically on a copy of the caller's state; for every return path, "path condition and results" becomes one
+// disjunct of what is assumed about fresh result values. Safety obligations of the callee's body are generated in
+// the caller's context and count for the caller's properties. Anything else: not inlined (the call stays unsupported).
+func (env *Env) inlineCall(x *ast.CallExpr, fn *types.Func, key string, recvExpr ast.Expr) (Val, bool) {
+	c := env.c
+	fi := c.eng.Funcs[key]
+	if fi == nil || fi.Decl == nil || fi.Decl.Body == nil || c.inlineDepth >= 2 || fi.Pkg != c.fi.Pkg || fi == c.fi {
+		return Val{}, false
+	}
+	simple := true
+	ast.Inspect(fi.Decl.Body, func(n ast.Node) bool {
+		switch n.(type) {
+		case *ast.ForStmt, *ast.RangeStmt, *ast.DeferStmt, *ast.GoStmt, *ast.FuncLit, *ast.SelectStmt, *ast.LabeledStmt:
+			simple = false
+		}
+		return simple
+	})
+	sig, ok := fn.Type().(*types.Signature)
+	if !simple || !ok || sig.Variadic() {
+		return Val{}, false
+	}
+	// arguments, in the caller
+	var argv []Val
+	for i, a := range x.Args {
+		v := env.eval(a)
+		if v.Loc != nil {
+			return Val{}, false
+		}
+		argv = append(argv, env.convertVal(v, env.typeOf(a), sig.Params().At(i).Type(), a.Pos()))
+	}
+	var recvV *Val
+	if recvExpr != nil {
+		v := env.eval(recvExpr)
+		if v.Loc != nil {
+			return Val{}, false
+		}
+		recvV = &v
+	}
+	sub := env.st.Clone()
+	info := c.info
+	bind := func(nm *ast.Ident, v Val) {
+		if o := info.Defs[nm]; o != nil {
+			sub.vars[o] = c.nameTerm(sub, nm.Name, env.term(v, x.Pos()))
+		}
+	}
+	if fi.Decl.Recv != nil && len(fi.Decl.Recv.List) > 0 && len(fi.Decl.Recv.List[0].Names) > 0 {
+		if recvV == nil {
+			return Val{}, false
+		}
+		rt := env.typeOf(recvExpr)
+		if _, isPtr := sig.Recv().Type().Underlying().(*types.Pointer); isPtr || rt == nil {
+			return Val{}, false // pointer receivers: effects on the receiver are not summarised
+		}
+		bind(fi.Decl.Recv.List[0].Names[0], *recvV)
+	}
+	pi := 0
+	if fi.Decl.Type.Params != nil {
+		for _, f := range fi.Decl.Type.Params.List {
+			for _, nm := range f.Names {
+				if pi >= len(argv) {
+					return Val{}, false
+				}
+				bind(nm, argv[pi])
+				pi++
+			}
+			if len(f.Names) == 0 {
+				pi++
+			}
+		}
+	}
+	var named []types.Object
+	if fi.Decl.Type.Results != nil {
+		for _, f := range fi.Decl.Type.Results.List {
+			for _, nm := range f.Names {
+				if o := info.Defs[nm]; o != nil {
+					named = append(named, o)
+					sub.vars[o] = c.zero(c.eng.Sorts.SortOf(o.Type()), o.Type())
+				}
+			}
+		}
+	}
+	// run the body in the callee's function context
+	sFi, sSpec, sNamed, sLoop, sCall, sAssign, sSite := c.fi, c.spec, c.named, c.loopOrd, c.callOrd, c.assignOrd, c.siteOrd
+	c.fi = fi
+	c.spec = &FuncSpec{Key: key, Pkg: sSpec.Pkg, Props: sSpec.Props, Loops: map[int]*LoopSpec{}, Calls: map[string][]string{}, Opaque: sSpec.Opaque, OpaqueExc: sSpec.OpaqueExc}
+	c.named = named
+	c.loopOrd, c.callOrd, c.assignOrd, c.siteOrd = map[ast.Stmt]int{}, map[*ast.CallExpr]string{}, map[ast.Stmt]string{}, map[string]int{}
+	c.inlineDepth++
+	sub.path = append(sub.path, "inline:"+fn.Name())
+	var outs []Out
+	failed := false
+	func() {
+		defer func() {
+			if r := recover(); r != nil {
+				if _, ok := r.(unsupportedErr); ok {
+					failed = true
+					return
+				}
+				panic(r)
+			}
+		}()
+		outs = c.execBlock(fi.Decl.Body.List, sub)
+	}()
+	c.inlineDepth--
+	c.fi, c.spec, c.named, c.loopOrd, c.callOrd, c.assignOrd, c.siteOrd = sFi, sSpec, sNamed, sLoop, sCall, sAssign, sSite
+	if failed {
+		return Val{}, false
+	}
+	// results
+	var res []Val
+	for i := 0; i < sig.Results().Len(); i++ {
+		rt := sig.Results().At(i).Type()
+		r := c.fresh("r_"+fn.Name(), c.eng.Sorts.SortOf(rt))
+		res = append(res, Val{T: r, GoT: rt})
+	}
+	base := len(env.st.hyps)
+	var disj []string
+	for _, o := range outs {
+		if o.st.dead {
+			continue
+		}
+		if o.kind != oReturn && !(o.kind == oNormal && sig.Results().Len() == 0) {
+			return Val{}, false
+		}
+		// no visible effect: everything the caller had is unchanged
+		for ob, t := range env.st.vars {
+			if o.st.vars[ob] != t || o.st.vers[ob] != env.st.vers[ob] {
+				return Val{}, false
+			}
+		}
+		for k, v := range env.st.spec {
+			if o.st.spec[k].T != v.T {
+				return Val{}, false
+			}
+		}
+		if len(o.st.defers) != len(env.st.defers) || len(o.st.hyps) < base {
+			return Val{}, false
+		}
+		parts := append([]string(nil), o.st.hyps[base:]...)
+		if sig.Results().Len() > 0 {
+			if len(o.st.retVals) != len(res) {
+				return Val{}, false
+			}
+			for i, rv := range o.st.retVals {
+				t := env.term(rv, x.Pos())
+				if t.Sort != res[i].T.Sort {
+					return Val{}, false
+				}
+				parts = append(parts, eq(res[i].T.S, t.S))
+			}
+		}
+		disj = append(disj, and(parts...))
+	}
+	if len(disj) == 0 {
+		env.st.dead = true
+	} else if len(disj) == 1 {
+		env.st.Assume(disj[0])
+	} else {
+		env.st.Assume("(or " + strings.Join(disj, " ") + ")")
+	}
+	c.noteOnce("call to " + key + " (no contract) replaced by a summary computed from its body")
+	switch len(res) {
+	case 0:
+		return Val{}, true
+	case 1:
+		return res[0], true
+	}
+	return Val{Tuple: res}, true
 }
